@@ -1,18 +1,18 @@
 #!/bin/sh
 # tools/verify_seed.sh <ID> [srcdir] : independent confirmation of a seeded change (patch applies to /repo HEAD, the
 # demonstration passes without it and fails with it, the repository's own test-suite still passes with it).
-ID=$1; SRC=${2:-/tmp/out-$ID}
-W=/tmp/vs-$ID
+ID=$1; SRC=${2:-/tmp/out-$ID}; TAG=${3:-$ID-1}
+W=/tmp/vs-$TAG
 OUT=/verif/.work/seed_verify; mkdir -p $OUT
 git -C /repo worktree remove --force $W 2>/dev/null
 git -C /repo worktree add -q $W HEAD || exit 3
 cd $W
 export PYTHONPATH=$W
-CLEAN_RC=$( (timeout 1800 /venv/bin/python $SRC/demo.py > $OUT/$ID.demo_clean.log 2>&1; echo $?) )
+CLEAN_RC=$( (timeout 1800 /venv/bin/python $SRC/demo.py > $OUT/$TAG.demo_clean.log 2>&1; echo $?) )
 if git apply --check $SRC/patch.diff 2>/dev/null; then APPLIES=true; git apply $SRC/patch.diff; else APPLIES=false; fi
-BUG_RC=$( (timeout 1800 /venv/bin/python $SRC/demo.py > $OUT/$ID.demo_bug.log 2>&1; echo $?) )
-timeout 3000 /venv/bin/python -m pytest -q -p no:cacheprovider --timeout=900 --continue-on-collection-errors --junitxml=$OUT/$ID.junit.xml > $OUT/$ID.pytest.log 2>&1
-/venv/bin/python - "$OUT/$ID.junit.xml" "$ID" "$CLEAN_RC" "$BUG_RC" "$APPLIES" <<'PY' > $OUT/$ID.json
+BUG_RC=$( (timeout 1800 /venv/bin/python $SRC/demo.py > $OUT/$TAG.demo_bug.log 2>&1; echo $?) )
+timeout 3000 /venv/bin/python -m pytest -q -p no:cacheprovider --timeout=900 --continue-on-collection-errors --junitxml=$OUT/$TAG.junit.xml > $OUT/$TAG.pytest.log 2>&1
+/venv/bin/python - "$OUT/$TAG.junit.xml" "$TAG" "$CLEAN_RC" "$BUG_RC" "$APPLIES" <<'PY' > $OUT/$TAG.json
 import json, sys, xml.etree.ElementTree as ET
 base = json.load(open('/root/.vp/BASELINE.json')); stable = set(base['stable_pass'])
 res = {}
@@ -27,4 +27,4 @@ print(json.dumps({"id": sys.argv[2], "demo_exit_without_change": int(sys.argv[3]
                   "not_passing": missing[:10]}, indent=1))
 PY
 cd /; git -C /repo worktree remove --force $W
-cat $OUT/$ID.json
+cat $OUT/$TAG.json
